@@ -1200,7 +1200,26 @@ class _RunInterp(FinamInterp):
         return super().call_hook(fv, args, kwargs, node, mod)
 
 
-def r05s_run_selection(repo, sink):
+def _selection_defect(name, updates):
+    for i, (sel, before) in enumerate(updates):
+        alive = {k: tm for k, (tm, fin) in before.items() if not fin}
+        if not alive:
+            return None
+        least = min(alive.values())
+        if before[sel][1] or before[sel][0] != least:
+            who = sorted(k for k, tm in alive.items() if tm == least)
+            return (f"scenario {name}, step {i}: {sel} (time {before[sel][0]}{', finished' if before[sel][1] else ''}) is selected although "
+                    f"{'/'.join(who)} is less advanced (time {least}); times before the step: "
+                    f"{ {k: v[0] for k, v in before.items()} }")
+    return None
+
+
+def r05t_terminate(repo, sink):
+    """The termination half of the scripted runs (own rule: C03's clause, not a scheduling-order obligation)."""
+    r05s_run_selection(repo, sink, parts=("termination",))
+
+
+def r05s_run_selection(repo, sink, parts=("selection",)):
     """Every scheduling step of run() starts from a least-advanced unfinished time component,
     and the loop ends exactly when every component is finished or has reached the end time.
     Observed on the real constructor / connect / run over scripted stand-in components (rules/lifetrace.py): nothing of the
@@ -1220,7 +1239,7 @@ def r05s_run_selection(repo, sink):
         "all-beyond-the-end-from-the-start": ({"A": dict(t=10, step=1), "B": dict(t=12, step=2)}, 5),
         "some-beyond-the-end-from-the-start": ({"A": dict(t=10, step=1), "B": dict(t=2, step=2)}, 6),
     }
-    worst, steps = None, 0
+    worst, worst_t, steps = None, None, 0
     for name, (spec, end) in scenarios.items():
         script = {k: dict(step=v["step"], connect_calls=1, _t0=v["t"], deps=v.get("deps", ()), finish_at=v.get("finish_at")) for k, v in spec.items()}
         stopped = False
@@ -1228,42 +1247,42 @@ def r05s_run_selection(repo, sink):
             it, outcome = _drive(repo, script, end=end)
         except AnalysisError as exc:
             if "more than 300 updates" in str(exc):
-                worst = worst or f"scenario {name}: the run loop is still scheduling after 300 updates (it should have ended long ago)"
+                worst_t = worst_t or f"scenario {name}: the run loop is still scheduling after 300 updates (it should have ended long ago)"
+                worst = worst or _selection_defect(name, getattr(getattr(exc, "interp", None), "updates", []))
                 continue
-            sink.unknown("R05", "run-selection", run, f"scenario {name}: run outside vocabulary: {exc}")
+            sink.unknown(*(("R05", "run-selection") if "selection" in parts else ("R05t", "run-termination")), run, f"scenario {name}: run outside vocabulary: {exc}")
             return
         except Undecided as exc:
-            sink.unknown("R05", "run-selection", run, f"scenario {name}: run outside vocabulary: {exc}")
+            sink.unknown(*(("R05", "run-selection") if "selection" in parts else ("R05t", "run-termination")), run, f"scenario {name}: run outside vocabulary: {exc}")
             return
         if outcome is not None:
             worst = worst or f"scenario {name}: run raises {outcome}"
+            worst_t = worst_t or f"scenario {name}: run raises {outcome}"
             continue
         steps += len(it.updates)
         for i, (sel, before) in enumerate(it.updates):
-            alive = {k: tm for k, (tm, fin) in before.items() if not fin}
-            if not alive:
-                worst = worst or f"scenario {name}, step {i}: a step is started although every component is finished"
+            if not any(not fin for _tm, fin in before.values()):
+                worst_t = worst_t or f"scenario {name}, step {i}: a step is started although every component is finished"
                 break
-            least = min(alive.values())
-            if before[sel][1] or before[sel][0] != least:
-                who = sorted(k for k, tm in alive.items() if tm == least)
-                worst = worst or (f"scenario {name}, step {i}: {sel} (time {before[sel][0]}{', finished' if before[sel][1] else ''}) is selected although "
-                                  f"{'/'.join(who)} is less advanced (time {least}); times before the step: "
-                                  f"{ {k: v[0] for k, v in before.items()} }")
-                break
+        worst = worst or _selection_defect(name, it.updates)
         final = {k: (c.fields["time"], c.fields["status"] == Sym("enum", "ComponentStatus", "FINISHED")) for k, c in it.comps.items()}
         finished_by_script = {k for k, v in spec.items() if v.get("finish_at") is not None and final[k][0] >= v["finish_at"]}
         lag = sorted(k for k, (tm, fin) in final.items() if k not in finished_by_script and tm < end)
         if lag:
-            worst = worst or f"scenario {name}: run returns while {lag} are neither finished nor at the end time {end} (times {final})"
+            worst_t = worst_t or f"scenario {name}: run returns while {lag} are neither finished nor at the end time {end} (times {final})"
         for i, (_sel, before) in enumerate(it.updates):
             if not any((not fin) and tm < end for tm, fin in before.values()):
-                worst = worst or (f"scenario {name}, step {i}: a further step is started although every component already was finished or at the "
+                worst_t = worst_t or (f"scenario {name}, step {i}: a further step is started although every component already was finished or at the "
                                   f"end time {end} (times/finished before the step: {before})")
                 break
         if not any(p == "finalize" for _c, p in it.trace):
-            worst = worst or f"scenario {name}: run returns without finalizing"
-    sink.check(worst is None, "R05", "run-selection", run,
-               ok=f"{len(scenarios)} scripted runs, {steps} scheduling steps: each starts from a least-advanced unfinished component; the loop ends when all "
-                  "are finished or at the end time",
-               bad=worst or "")
+            worst_t = worst_t or f"scenario {name}: run returns without finalizing"
+    if "selection" in parts:
+        sink.check(worst is None, "R05", "run-selection", run,
+                   ok=f"{len(scenarios)} scripted runs, {steps} scheduling steps: each starts from a least-advanced unfinished component",
+                   bad=worst or "")
+    if "termination" in parts:
+        sink.check(worst_t is None, "R05t", "run-termination", run,
+                   ok=f"{len(scenarios)} scripted runs, {steps} scheduling steps: no step is started once all components are finished or at the end time "
+                      "(also when they are beyond it from the start); the loop ends exactly then and the run finalizes",
+                   bad=worst_t or "")
